@@ -21,6 +21,10 @@
 #include <eventpp/eventqueue.h>
 #include <eventpp/mixins/mixinfilter.h>
 #include <eventpp/utilities/orderedqueuelist.h>
+#include <eventpp/utilities/scopedremover.h>
+#include <eventpp/utilities/counterremover.h>
+#include <eventpp/utilities/conditionalremover.h>
+#include <memory>
 #include <functional>
 #include <map>
 #include <unordered_map>
@@ -122,6 +126,7 @@ typedef Payload & ArgT;
 static void onListener(int id, int keySeen, const Payload & p);
 static bool onFilter(int id, Payload * mut, const Payload & p);
 static bool onPredicate(const Payload & p);
+static bool onCondition(int id, const Payload & p);
 
 struct Cb
 {
@@ -145,6 +150,12 @@ struct Fl
 	bool operator() (const Payload & p) const { regUse(this); return onFilter(id, 0, p); }
 	template <typename K> bool operator() (K &, Payload & p) const { regUse(this); return onFilter(id, &p, p); }
 	template <typename K> bool operator() (K &, const Payload & p) const { regUse(this); return onFilter(id, 0, p); }
+};
+struct Cond      // condition of a ConditionalRemover: scripted, evaluated with the trigger's arguments
+{
+	int id;
+	bool operator() (ArgT p) const { return onCondition(id, p); }
+	bool operator() (const Key &, ArgT p) const { return onCondition(id, p); }
 };
 struct Pred
 {
@@ -212,6 +223,15 @@ typedef Q::Handle Handle;
 
 alignas(16) static unsigned char g_storage[sizeof(Q) + 64];
 static Q * q;
+// a second dispatcher (only ScopedRemovers put listeners there; its events are logged as keys 3,4) and the removers
+alignas(16) static unsigned char g_storage2[sizeof(Q) + 64];
+static Q * q2;
+typedef eventpp::ScopedRemover<Q> SR;
+enum { MaxR = 3 };
+static std::unique_ptr<SR> R[MaxR + 1];
+static int RT[MaxR + 1];            // which dispatcher the harness told remover r to work on (mirrors the commands, for logging only)
+static int g_keyOffset = 0;
+static std::vector<int> HE;         // handle number -> event it was registered under
 static std::vector<Handle> H;
 #if W_FILTER == 1
 static std::vector<Q::FilterHandle> FH;
@@ -244,15 +264,25 @@ static Op runUser()
 	Op ret; ret.a = ret.b = 0;
 	while(ip < script.size()) {
 		const std::string & k = script[ip].k;
-		if(k == "t" || k == "pt" || k == "ft") { ret = script[ip++]; break; }
+		if(k == "t" || k == "pt" || k == "ft" || k == "ct") { ret = script[ip++]; break; }
 		step();
 	}
 	--g_depth;
 	return ret;
 }
+static bool onCondition(int id, const Payload & p)
+{
+	regUse(&p);
+	evx("kb", 0, id, p.v, 0, p.uid);
+	Op r = runUser();
+	bool verdict = (r.k == "ct") ? r.a != 0 : false;
+	evx("ke", 0, id, 0, verdict ? 1 : 0, 0);
+	return verdict;
+}
 static void onListener(int id, int keySeen, const Payload & p)
 {
 	regUse(&p);
+	if(keySeen) keySeen += g_keyOffset;
 	evx("en", keySeen, id, p.v, 0, p.uid);
 	runUser();
 	evx("rt", 0, id, 0, 0, 0);
@@ -288,13 +318,15 @@ template <typename Obj> static void callDispatch(Obj & o, int e, Payload & p)
 	if(p.uid % 2) { Key k = makeKey(e); o.dispatch(k, p); } else { o.dispatch(makeKey(e), p); }
 #endif
 }
-static void dispatch(int e, int v)
+static void dispatch(int e, int v, int d = 1)
 {
 	int uid = ++g_uid, after;
-	evx("db", e, v, W_ARG == 2 ? 1 : 0, 0, uid);
+	evx("db", e + 2 * (d - 1), v, W_ARG == 2 ? 1 : 0, 0, uid);
 	{
 		Payload p(uid, v, e);
-		callDispatch(*q, e, p);
+		g_keyOffset = 2 * (d - 1);
+		callDispatch(d == 1 ? *q : *q2, e, p);
+		g_keyOffset = 0;
 		after = p.v;
 		if(p.uid != uid) after = -1000;      // the caller's own object was moved from
 	}
@@ -353,9 +385,28 @@ static bool step()
 	const Op o = script[ip++];
 	const std::string & k = o.k;
 	if(g_depth > 0) g_nested = true;
-	if(k == "al") { int id = (int)H.size() + 1; H.push_back(q->appendListener(makeKey(o.a), Cb(id))); evx("al", o.a, 0, 0, id, 0); }
-	else if(k == "pl") { int id = (int)H.size() + 1; H.push_back(q->prependListener(makeKey(o.a), Cb(id))); evx("pl", o.a, 0, 0, id, 0); }
-	else if(k == "il") { int id = (int)H.size() + 1; Handle b = handleOf(o.b); H.push_back(q->insertListener(makeKey(o.a), Cb(id), b)); evx("il", o.a, o.b, 0, id, 0); }
+	if(k == "al") { int id = (int)H.size() + 1; H.push_back(q->appendListener(makeKey(o.a), Cb(id))); HE.push_back(o.a); evx("al", o.a, 0, 0, id, 0); }
+	else if(k == "pl") { int id = (int)H.size() + 1; H.push_back(q->prependListener(makeKey(o.a), Cb(id))); HE.push_back(o.a); evx("pl", o.a, 0, 0, id, 0); }
+	else if(k == "il") { int id = (int)H.size() + 1; Handle b = handleOf(o.b); H.push_back(q->insertListener(makeKey(o.a), Cb(id), b)); HE.push_back(o.a); evx("il", o.a, o.b, 0, id, 0); }
+#if W_CALLBACK == 0
+	// CounterRemover / ConditionalRemover: the helper object is a temporary, gone right after the registration
+	else if(k == "ac") { int id = (int)H.size() + 1; H.push_back(eventpp::counterRemover(*q).appendListener(makeKey(o.a), Cb(id), o.b)); HE.push_back(o.a); evx("ac", o.a, o.b, 0, id, 0); }
+	else if(k == "ak") { int id = (int)H.size() + 1; H.push_back(eventpp::conditionalRemover(*q).appendListener(makeKey(o.a), Cb(id), Cond{id})); HE.push_back(o.a); evx("ak", o.a, 0, 0, id, 0); }
+#endif
+	// ScopedRemover o.a
+	else if(k == "sa" || k == "sp") {
+		int id = (int)H.size() + 1; SR & r = *R[o.a];
+		H.push_back(k == "sa" ? r.appendListener(makeKey(o.b), Cb(id)) : r.prependListener(makeKey(o.b), Cb(id))); HE.push_back(o.b);
+		evx(k.c_str(), o.a, o.b + 2 * (RT[o.a] - 1), 0, id, 0);
+	}
+	else if(k == "sr") { int e = (o.b >= 1 && o.b <= (int)HE.size()) ? HE[o.b - 1] : 1; bool r = R[o.a]->removeListener(makeKey(e), handleOf(o.b)); evx("sr", o.a, o.b, 0, r ? 1 : 0, 0); }
+	else if(k == "sx") { R[o.a]->reset(); evx("sx", o.a, 0, 0, 0, 0); }
+	else if(k == "st") { R[o.a]->setDispatcher(o.b == 1 ? *q : *q2); RT[o.a] = o.b; evx("st", o.a, o.b, 0, 0, 0); }
+	else if(k == "sc") { R[o.b].reset(new SR(std::move(*R[o.a]))); RT[o.b] = RT[o.a]; evx("sc", o.a, o.b, 0, 0, 0); }
+	else if(k == "sm") { *R[o.b] = std::move(*R[o.a]); RT[o.b] = RT[o.a]; evx("sm", o.a, o.b, 0, 0, 0); }
+	else if(k == "ss") { if((o.a + o.b) % 2) R[o.a]->swap(*R[o.b]); else R[o.b]->swap(*R[o.a]); std::swap(RT[o.a], RT[o.b]); evx("ss", o.a, o.b, 0, 0, 0); }
+	else if(k == "sd") { R[o.a].reset(); evx("sd", o.a, 0, 0, 0, 0); }
+	else if(k == "sn") { R[o.a].reset(new SR(o.b == 1 ? *q : *q2)); RT[o.a] = o.b; evx("sn", o.a, o.b, 0, 0, 0); }
 	else if(k == "rl") { bool r = q->removeListener(makeKey(o.a), handleOf(o.b)); evx("rl", o.a, o.b, 0, r ? 1 : 0, 0); }
 	else if(k == "hl") { bool r = q->hasAnyListener(makeKey(o.a)); evx("hl", o.a, 0, 0, r ? 1 : 0, 0); }
 	else if(k == "ol") { bool r = q->ownsHandle(makeKey(o.a), handleOf(o.b)); evx("ol", o.a, o.b, 0, r ? 1 : 0, 0); }
@@ -380,13 +431,16 @@ static bool step()
 	else if(k == "cl") { q->clearEvents(); evx("cl", 0, 0, 0, 0, 0); }
 	else if(k == "eq") { bool r = q->emptyQueue(); evx("eq", 0, 0, 0, r ? 1 : 0, 0); }
 #endif
-	else if(k == "t" || k == "pt" || k == "ft") { /* a return item with no user code running: ignore */ }
+	else if(k == "t" || k == "pt" || k == "ft" || k == "ct") { /* a return item with no user code running: ignore */ }
 	else { std::fprintf(stderr, "unknown op %s\n", k.c_str()); std::exit(2); }
 	return true;
 }
 
 static void epilogue()
 {
+	// every ScopedRemover dies: what was added through them must be gone, on both dispatchers
+	for(int r = 1; r <= MaxR; ++r) if(R[r]) { R[r].reset(); evx("sd", r, 0, 0, 0, 0); }
+	for(int e = 1; e <= NEVENTS; ++e) { bool r = q2->hasAnyListener(makeKey(e)); evx("hl", e + 2, 0, 0, r ? 1 : 0, 0); dispatch(e, 4, 2); }
 	for(int e = 1; e <= NEVENTS; ++e) {
 		bool r = q->hasAnyListener(makeKey(e)); evx("hl", e, 0, 0, r ? 1 : 0, 0);
 		int n = 0;
@@ -415,7 +469,8 @@ static void epilogue()
 #endif
 	for(int e = 1; e <= NEVENTS; ++e) dispatch(e, 6);
 	q->~Q(); q = 0;
-	H.clear();
+	q2->~Q(); q2 = 0;
+	H.clear(); HE.clear();
 	evx("rs", 0, 0, 0, 0, 0);
 }
 
@@ -433,6 +488,9 @@ int main(int argc, char ** argv)
 		armWatchdog(20);
 		std::memset(g_storage, W_FILL, sizeof(g_storage));
 		q = new (g_storage) Q();
+		std::memset(g_storage2, W_FILL, sizeof(g_storage2));
+		q2 = new (g_storage2) Q();
+		R[1].reset(new SR(*q)); RT[1] = 1;
 		ip = 0; g_uid = 0; g_depth = 0; g_nested = false;
 		while(ip < script.size()) step();
 		epilogue();
